@@ -93,3 +93,14 @@ Theorem C08_source_random_iteration_dispatch : forall sp cons rrp_m rrp_e body f
   end.
 Proof. exact random_iteration_spec. Qed.
 Print Assumptions C08_source_random_iteration_dispatch.
+
+Require Import InitGen InitTie.
+(* the rejection loop of the GENERATED Initializer._init_random_search (also behind _fill_rest_random and add_n_random_init_pos): rejected
+   candidates first, then a feasible one: that one is the requested position, after one constraint evaluation per candidate *)
+Theorem C08_source_init_random_search_first_feasible : forall sp cons fuel (self : g_init) (rejected : list pos) (p : pos) (rest : tape),
+  Forall (fun q => in_box sp q /\ feasible sp cons q = Ok false) rejected -> in_box sp p -> feasible sp cons p = Ok true ->
+  (length rejected < fuel)%nat -> in_tape self = flat_map (map DZ) rejected ++ map DZ p ++ rest ->
+  g_Initializer_init_random_search sp cons fuel self 1 =
+  Ok (self <| in_tape := rest |> <| in_ncalls := in_ncalls self + Z.of_nat (length rejected) + 1 |>, [p]).
+Proof. exact init_random_search_first_feasible. Qed.
+Print Assumptions C08_source_init_random_search_first_feasible.
